@@ -585,6 +585,7 @@ type rangeIter struct {
 	s      string
 	isStr  bool
 	pos    int
+	sym    []*Term // symbolic string bytes (length concrete)
 }
 
 func (t *Task) mkRange(v Value, ty types.Type) Value {
@@ -599,7 +600,12 @@ func (t *Task) mkRange(v Value, ty types.Type) Value {
 	case StrVal:
 		s, ok := p.concreteString(a)
 		if !ok {
-			p.unsupported("range over symbolic string")
+			n := p.ConcInt(a.Len, "length of ranged string")
+			bs := make([]*Term, n)
+			for i := 0; i < n; i++ {
+				bs[i] = a.Arr.Slots[a.Off+i].(*Term)
+			}
+			return &rangeIter{isStr: true, sym: bs}
 		}
 		return &rangeIter{isStr: true, s: s}
 	}
@@ -610,6 +616,15 @@ func (t *Task) mkRange(v Value, ty types.Type) Value {
 func (t *Task) rangeNext(it *rangeIter, x *ssa.Next) Value {
 	p := t.p
 	c := p.C
+	if it.isStr && it.sym != nil {
+		if it.pos >= len(it.sym) {
+			return Tuple{c.False, c.Const(64, 0), c.Const(32, 0)}
+		}
+		r, n := t.decodeRuneSym(it.sym[it.pos:])
+		tu := Tuple{c.True, c.Const(64, uint64(it.pos)), r}
+		it.pos += n
+		return tu
+	}
 	if it.isStr {
 		if it.pos >= len(it.s) {
 			return Tuple{c.False, c.Const(64, 0), c.Const(32, 0)}
